@@ -171,6 +171,7 @@ struct FakeSrv : Monitor {
 			const char *n = bits == 5 ? "Base32" : bits == 6 ? "Base64" : bits == 26 ? "Base64u" : bits == 7 ? "Base128" : "BADCODEC";
 			if (odd) { static const char *alt[] = {"BADLEN", "BADIP", "BADCODEC", "Base32", "Base64", "Base64u", "Base128", "Raw", "Lazy", ""}; n = alt[rr.range(0, 9)]; }
 			Bytes p = S2B(n);
+			if (odd && rr.chance(0.4) && p.size() > 1) p.resize((size_t)rr.range(1, (int64_t)p.size() - 1));     // a reply cut short: "BAD", "BADC", "Base" ...
 			if (odd && rr.chance(0.3)) { Bytes x = rr.bytes((size_t)rr.range(1, 4096)); p.insert(p.end(), x.begin(), x.end()); }
 			return p; }
 		case 'o': {
@@ -179,6 +180,7 @@ struct FakeSrv : Monitor {
 			if (odd) { static const char *alt[] = {"BADLEN", "BADIP", "BADCODEC", "Base32", "Base64", "Base64u", "Base128", "Raw", "Lazy", "Immediate", ""}; n = alt[rr.range(0, 10)]; }
 			else if (strchr("tsuvr", o) && o) downenc = (char)toupper((unsigned char)o);
 			Bytes p = S2B(n);
+			if (odd && rr.chance(0.4) && p.size() > 1) p.resize((size_t)rr.range(1, (int64_t)p.size() - 1));     // "La", "Laz", "Imm", "BADL" ...
 			if (odd && rr.chance(0.3)) { Bytes x = rr.bytes((size_t)rr.range(1, 4096)); p.insert(p.end(), x.begin(), x.end()); }
 			return p; }
 		case 'y': {
@@ -197,7 +199,7 @@ struct FakeSrv : Monitor {
 			int req = ((v1 & 1) << 10) | ((v2 & 31) << 5) | (v3 & 31);
 			size_t n = (size_t)req;
 			enc = downenc;
-			if (odd) n = rr.chance(0.5) ? (size_t)rr.range(0, 4200) : n + (size_t)rr.range(0, 3) - 1;
+			if (odd) n = rr.chance(0.2) ? (size_t)rr.range(0, 3) : rr.chance(0.5) ? (size_t)rr.range(0, 4200) : n + (size_t)rr.range(0, 3) - 1;
 			if (n > 4200) n = 4200;
 			if (req < 2 && !odd) return S2B("BADFRAG");
 			Bytes p(n, 0);
@@ -213,6 +215,7 @@ struct FakeSrv : Monitor {
 			Bytes p;
 			if (u.b32.size() >= 3) { p.push_back(u.b32[1]); p.push_back(u.b32[2]); }
 			if (odd) p = rr.chance(0.5) ? S2B("BADFRAG") : rr.bytes((size_t)rr.range(0, 6));
+			if (odd && rr.chance(0.4) && p.size() > 1) p.resize((size_t)rr.range(1, (int64_t)p.size() - 1));
 			return p; }
 		default: break;
 		}
